@@ -275,7 +275,10 @@ class AbstractDateTime(AnyAtomicType):
         if self._year != year:
             if isinstance(other, AbstractDateTime) and abs(self._year - year) <= 2:
                 # Near a year boundary the timezone offsets decide the order of the instants
-                return op(self.todelta(), other.todelta())
+                try:
+                    return op(self.todelta(), other.todelta())
+                except OverflowError:
+                    pass  # years out of the range of timedelta
             return op(self._year, year)
         elif self._dt.tzinfo is dt.tzinfo:
             return op(self._dt, dt)
